@@ -390,6 +390,87 @@ def struct_cases(ctx, limit):
     logging.disable(logging.NOTSET)
 
 
+def crypt_cases(ctx, limit):
+    """single faults in the encryption dictionary and the file identifier, for every algorithm/revision the standard
+    security handler knows, opened with the right and with a wrong password"""
+    import copy
+    import logging
+    import random
+    import c10
+    import pdfcrypt
+    from pdfwriter import write_history
+    logging.disable(logging.CRITICAL)
+    repl = [x for x in REPL if x not in ("SELF", "CYCLE")]
+
+    def paths(v, path=()):
+        out = []
+        if isinstance(v, dict):
+            for k, x in v.items():
+                out.append(path + (k,))
+                out += paths(x, path + (k,))
+        elif isinstance(v, list):
+            for j, x in enumerate(v):
+                out.append(path + (j,))
+                out += paths(x, path + (j,))
+        return out
+    jobs = []
+    docs = []
+    for ci, cfg in enumerate(c10.CONFIGS):
+        d = c10.gen_doc(random.Random(ci), cfg, ci)
+        docs.append(d)
+        encd = d["enc"].encrypt_dict()
+        jobs += [(ci, p, rep) for p in paths(encd) + [("__ID__",), ("__ID__", 0)] for rep in repl]
+    r = ctx.sub("cryptfaults")
+    r.shuffle(jobs)
+    if limit:
+        jobs = jobs[:limit]
+    for ci, p, rep in jobs:
+        d = docs[ci]
+        e2 = copy.deepcopy(d["enc"].encrypt_dict())
+        idv = [d["docid"], d["docid"]]
+        val = Ref(99999) if rep == "MISSING" else rep
+        if p[0] == "__ID__":
+            if len(p) == 1:
+                idv = None if rep == "REMOVE" else val
+            else:
+                idv = idv[1:] if rep == "REMOVE" else [val, idv[1]]
+        else:
+            cur = e2
+            for k in p[:-1]:
+                cur = cur[k]
+            if rep == "REMOVE":
+                if isinstance(cur, dict):
+                    cur.pop(p[-1], None)
+                else:
+                    del cur[p[-1]]
+            else:
+                cur[p[-1]] = val
+        defs = dict(d["defs"])
+        defs[9] = e2
+        te = {"Encrypt": Ref(9)}
+        if idv is not None:
+            te["ID"] = idv
+        try:
+            pdf, _, _ = write_history([{"defs": defs, "form": d["form"], "packed": d["packed"], "root": 1, "info": 6}], random.Random(1),
+                                      encrypt=lambda n, v, d=d: v if n == 9 else pdfcrypt.encrypt_value(d["enc"], n, 0, v), trailer_extra=te)
+        except Exception:  # noqa
+            continue
+        for pw in (d["user"], "wrong"):
+            def fn(data, pw=pw):
+                from pdfminer.high_level import extract_text
+                extract_text(io.BytesIO(data), password=pw)
+            cls, det, calls = run_budgeted(fn, pdf, 5 * 10 ** 6)
+            inp = {"seed": "crypt", "config": list(c10.CONFIGS[ci]), "path": [str(x) for x in p], "fault": repr(rep), "wrong_password": pw == "wrong"}
+            ctx.case("fault", ("crypt", repr(inp)), nontrivial=True, sample={"input": inp, "outcome": cls} if cls != "ok" else None)
+            ctx.histogram["outcome:" + cls] = ctx.histogram.get("outcome:" + cls, 0) + 1
+            if cls in ("ok", "family"):
+                continue
+            fam = {"leak": "leak", "budget": "work", "timeout": "work", "recursion": "recursion", "memory": "work"}[cls]
+            ctx.violation(fam, dict(inp, site=det, pdf=pdf.hex()), "returns or raises PSException/AssertionError", "%s %s" % (cls, det or ""),
+                          "a damaged encryption dictionary: " + {"leak": "an internal error escaped the library's exception family"}.get(cls, cls))
+    logging.disable(logging.NOTSET)
+
+
 def one(ctx, eps, base, sname, inp, pdf):
     for ename, fn in eps:
         budget = 40 * base[ename] + 200000
@@ -470,6 +551,7 @@ def correspondence(ctx):
     guard_cases(ctx, ctx.n(60, 600))
     fault_cases(ctx, ctx.n(220, 0), ctx.n(12, 60))
     struct_cases(ctx, ctx.n(60, 0))
+    crypt_cases(ctx, ctx.n(80, 0))
 
 
 def oracle(ctx):
